@@ -93,6 +93,8 @@ func cmdC02(c *ctx) {
 		}
 		c02Case(c, m, "generated", src)
 	}
+	c02ImageProbes(c)
+	c02LayoutTrees(c, c.n/2)
 	// modules with several entry points of mixed stages sharing resources through helpers
 	for i := 0; i < c.n/2; i++ {
 		mm := genMulti(c)
@@ -104,6 +106,83 @@ func cmdC02(c *ctx) {
 		}
 		c.count(fmt.Sprintf("multi-entry-points:%d", len(mm.entries)))
 		c02Case(c, m, "multi-entry", src)
+	}
+}
+
+// image probes: every textureLoad / textureStore shape under every image bounds-check policy (the policies insert
+// conditional blocks and OpPhi around the access)
+var c02ImageDecls = `@group(0) @binding(0) var t2: texture_2d<f32>;
+@group(0) @binding(1) var tms: texture_multisampled_2d<f32>;
+@group(0) @binding(2) var ts: texture_storage_2d<rgba8unorm, read>;
+@group(0) @binding(3) var td: texture_depth_2d;
+@group(0) @binding(4) var t2a: texture_2d_array<f32>;
+@group(0) @binding(5) var tw: texture_storage_2d<rgba8unorm, write>;
+@group(0) @binding(6) var<storage, read_write> outp: array<vec4<f32>>;
+@group(0) @binding(7) var t1: texture_1d<u32>;
+@group(0) @binding(8) var t3: texture_3d<i32>;
+@group(0) @binding(9) var tb: texture_storage_2d<bgra8unorm, write>;
+`
+var c02ImageStmts = []string{
+	"outp[0] = textureLoad(t2, c, 0);",
+	"outp[1] = textureLoad(t2, c, i32(id.z));",
+	"outp[2] = textureLoad(tms, c, 1);",
+	"outp[2] = textureLoad(tms, c, i32(id.z));",
+	"outp[3] = textureLoad(ts, c);",
+	"outp[4] = vec4<f32>(textureLoad(td, c, 0));",
+	"outp[5] = textureLoad(t2a, c, 1, 0);",
+	"outp[5] = textureLoad(t2a, c, id.z, id.y);",
+	"outp[6] = vec4<f32>(textureLoad(t1, i32(id.x), 0));",
+	"outp[7] = vec4<f32>(textureLoad(t3, vec3<i32>(id), 0));",
+	"textureStore(tw, c, outp[0]);",
+	"textureStore(tw, c, outp[0]); textureStore(tb, c, outp[1]);",
+	"outp[0] = textureLoad(t2, c, 0) + textureLoad(tms, c, 1) + textureLoad(ts, c);",
+}
+
+func c02ImageProbes(c *ctx) {
+	wraps := []string{"%s", "if id.x > 1u { %s }", "loop { if id.y > 2u { break; } %s continuing { break if id.x > 3u; } }",
+		"switch id.x { case 1u: { %s } default: { } }"}
+	for si, st := range c02ImageStmts {
+		for wi, w := range wraps {
+			src := c02ImageDecls + "@compute @workgroup_size(1) fn main(@builtin(global_invocation_id) id: vec3<u32>) {\n  let c = vec2<i32>(id.xy);\n  " +
+				fmt.Sprintf(w, st) + "\n}\n"
+			m := lowerQuiet(src)
+			if m == nil {
+				c.count("image-probe-frontend-rejected")
+				continue
+			}
+			for pi := 0; pi < 3; pi++ {
+				p := spirv.BoundsCheckPolicy(pi)
+				v := spvVersions[(si+wi+pi)%len(spvVersions)]
+				o := spirv.Options{Version: v, BoundsCheckPolicies: spirv.BoundsCheckPolicies{ImageLoad: p, ImageStore: p, Index: p}}
+				c02CaseOpts(c, m, "image-probe", src, o, fmt.Sprintf("v%d.%d image-policy=%d stmt=%d wrap=%d", v.Major, v.Minor, pi, si, wi))
+			}
+		}
+	}
+}
+
+// layout trees: the C07 type-tree programs (structs with @align/@size, nested arrays of matrices, non-struct globals)
+func c02LayoutTrees(c *ctx, n int) {
+	for i := 0; i < n; i++ {
+		g := &c07gen{c: c, f16: c.chance(0.3)}
+		top := g.strct(1+c.rng.Intn(3), true)
+		if c.chance(0.3) {
+			g.structs = nil
+			var el *lty = &lty{kind: "mat", c: 2 + c.rng.Intn(3), r: 2 + c.rng.Intn(3), sc: "f32"}
+			for k := c.rng.Intn(3); k > 0; k-- {
+				el = &lty{kind: "arr", elem: el, count: 1 + c.rng.Intn(4)}
+			}
+			top = el
+		}
+		for k := 0; k < 3; k++ {
+			g.paths = append(g.paths, g.path(top))
+		}
+		src := g.source(top, "storage, read_write")
+		m := lowerQuiet(src)
+		if m == nil {
+			c.count("layout-tree-frontend-rejected")
+			continue
+		}
+		c02Case(c, m, "layout-tree", src)
 	}
 }
 
